@@ -5,8 +5,8 @@ CONSTANTS
   FlagHeights <- FH2
   Active <- ActFlags2
   Lists <- ListsFlags2
-  Acts <- AllActs
-  MaxSteps = 5
+  Acts <- NoTest
+  MaxSteps = 6
   KeyMode = "full"
 INIT Init
 NEXT Next
